@@ -4,6 +4,7 @@ import (
 	"io"
 
 	e "github.com/osteele/liquid/expressions"
+	"github.com/osteele/liquid/parser"
 	"github.com/osteele/liquid/render"
 	"github.com/osteele/liquid/values"
 )
@@ -50,7 +51,8 @@ func caseTagCompiler(node render.BlockNode) (func(io.Writer, render.Context) err
 		case "when":
 			stmt, err := e.ParseStatement(e.WhenStatementSelector, clause.Args)
 			if err != nil {
-				return nil, err
+				// the failing tag is the clause, not the enclosing case
+				return nil, parser.WrapError(err, clause)
 			}
 			cases = append(cases, exprCase{stmt.When, clause})
 		default: // should be a check for "else", but I like the metacircularity
@@ -65,7 +67,8 @@ func caseTagCompiler(node render.BlockNode) (func(io.Writer, render.Context) err
 		for _, clause := range cases {
 			b, err := clause.test(sel, ctx)
 			if err != nil {
-				return err
+				// the failing tag is the clause, not the enclosing case
+				return parser.WrapError(err, clause.body())
 			}
 			if b {
 				return ctx.RenderBlock(w, clause.body())
@@ -99,7 +102,8 @@ func ifTagCompiler(polarity bool) func(render.BlockNode) (func(io.Writer, render
 			case "elsif":
 				t, err := e.Parse(c.Args)
 				if err != nil {
-					return nil, err
+					// the failing tag is the clause, not the enclosing if
+					return nil, parser.WrapError(err, c)
 				}
 				test = t
 			}
@@ -109,7 +113,8 @@ func ifTagCompiler(polarity bool) func(render.BlockNode) (func(io.Writer, render
 			for _, b := range branches {
 				value, err := ctx.Evaluate(b.test)
 				if err != nil {
-					return err
+					// the failing tag is the branch's own tag (the if, or an elsif clause)
+					return parser.WrapError(err, b.body)
 				}
 				if value != nil && value != false {
 					return ctx.RenderBlock(w, b.body)
